@@ -374,11 +374,11 @@ func TestC22(t *testing.T) {
 	}
 	run.Set("exhaustive_key_space", "65536 four-hex shard ids + 256 two-hex volume keys in both cases")
 
-	nShipped := run.N(10, 64)
-	nOther := run.N(6, 36)
+	nShipped := run.N(10, 24)
+	nOther := run.N(6, 18)
 	stride := run.N(4, 1)
 	nLong := run.N(1024, 8192)
-	nSample := run.N(3072, 24576)
+	nSample := run.N(3072, 12288)
 	const chunks = 4
 
 	var tasks []*task
